@@ -176,7 +176,7 @@ func (rn *renderer) call(st stmt) (expr, bind, enc string) {
 }
 
 // script renders a list of abstract statements.  A guard (if.head / ifnot.head) governs the next
-// statement, a foreach runs the rest of the script once per tag of the listed repository.
+// statement, a foreach runs the next one or two statements once per tag of the listed repository.
 func (rn *renderer) script(ss []stmt) string {
 	var b strings.Builder
 	b.WriteString(prelude)
@@ -206,12 +206,21 @@ func (rn *renderer) block(b *strings.Builder, ss []stmt, i int, ind string) {
 			fmt.Fprintf(b, "%send\n", ind)
 			i += 2
 		case "foreach":
+			// Y = number of statements in the body ("1" or "2"); the script continues after them
+			n := 1
+			if st.Y == "2" {
+				n = 2
+			}
+			end := i + 1 + n
+			if end > len(ss) {
+				end = len(ss)
+			}
 			fmt.Fprintf(b, "%sB(%d)\n%slocal ok%d, tl%d = pcall(tag.ls, %s)\n", ind, k, ind, k, k, rn.ref(st.X))
 			fmt.Fprintf(b, "%sif not ok%d then E(%d, tl%d); error(tl%d, 0) end\n%sR(%d, list(tl%d))\n", ind, k, k, k, k, ind, k, k)
 			fmt.Fprintf(b, "%sfor _, lt in ipairs(tl%d) do\n%s  lr = reference.new(%s)\n%s  lr:tag(lt)\n", ind, k, ind, rn.ref(st.X), ind)
-			rn.block(b, ss, i+1, ind+"  ")
+			rn.block(b, ss[:end], i+1, ind+"  ")
 			fmt.Fprintf(b, "%send\n", ind)
-			return
+			i = end
 		default:
 			expr, bind, enc := rn.call(st)
 			fmt.Fprintf(b, "%sB(%d)\n%sdo\n%s  local ok, v1, v2 = pcall(function() return %s end)\n", ind, k, ind, ind, expr)
